@@ -25,6 +25,18 @@ fn main() {
             worker_main(def, tier, args[4].parse().unwrap(), args[5].parse().unwrap(), args[6].parse().unwrap(), Path::new(&args[7]))
         }
         Some("replay-case") => replay_case_main(find(&args[2]), Path::new(&args[3])),
+        Some("c20-fresh") => {
+            // one C20 schedule (hex, one byte per step) in this fresh process
+            let h = args.get(2).cloned().unwrap_or_default();
+            let steps: Vec<u8> = (0..h.len() / 2).map(|i| u8::from_str_radix(&h[2 * i..2 * i + 2], 16).unwrap_or(0)).collect();
+            match vcheck::c20::run_schedule_in(&steps, &mut fw::Stats::new(), true) {
+                Ok(()) => 0,
+                Err(d) => {
+                    println!("{d}");
+                    1
+                }
+            }
+        }
         Some("profile-of") => {
             println!("{}", find(&args[2]).profile);
             0
